@@ -243,6 +243,19 @@ theorem C16_unclaimed_frame_leaves_relay_untouched (n : Node) (peer id serial : 
     (n.data peer id serial payload fin).1.a = n.a := by
   simp only [Node.data, h]
 
+/-- **Ingress UDP clients are independent**: an OPEN_ERR for the client whose local stream id is `id`
+    removes that client's reverse-index entry and nobody else's. -/
+theorem C16_ingress_err_targets_one (a : Agent) (peer id j : Nat) (hj : j ≠ id) :
+    (a.udpIngressErr peer id).1.uidx.contains j = a.uidx.contains j := by
+  unfold Agent.udpIngressErr Agent.relayErr
+  split
+  · next a' l h =>
+    split at h
+    · injection h with h; injection h with h1 _; subst h1
+      cases k : Kind.udp <;> simp [Agent.setTable]
+    · cases h
+  · simp [hj]
+
 /-- `Distinct`: no two records of one agent share a bare stream id in the same index. -/
 def Distinct (es : List Entry) : Prop := es.Pairwise (fun a b => a.upId ≠ b.upId ∧ a.downId ≠ b.downId)
 
